@@ -136,9 +136,21 @@ def _bv_width(interp, a, b):
     return None
 
 
+def run_binop_hooks(rt, interp, opn, a, b):
+    for hook in rt.binop_hooks.get(opn, ()):
+        res = hook(rt, interp, a, b)
+        if res is not MISSING:
+            return res
+    return MISSING
+
+
 def binop(rt, interp, op, a, b, node=None):
     opn = type(op).__name__
     sym = isinstance(a, Sym) or isinstance(b, Sym)
+    if rt.binop_hooks.get(opn) and not (_is_intlike(a) and _is_intlike(b) and opn != "Div"):
+        res = run_binop_hooks(rt, interp, opn, a, b)
+        if res is not MISSING:
+            return res
     if not sym:
         return _concrete_binop(rt, interp, opn, a, b, node)
     if _is_intlike(a) and _is_intlike(b):
@@ -193,11 +205,6 @@ def binop(rt, interp, op, a, b, node=None):
         if opn == "Pow" and isinstance(a, int) and isinstance(b, int):
             return a ** b
         if opn == "Div":
-            hook = rt.binop_hooks.get("Div")
-            if hook is not None:
-                res = hook(rt, interp, a, b)
-                if res is not MISSING:
-                    return res
             raise Undecided("true division on symbolic integers (float)")
         raise Undecided("integer operator %s on symbolic operands" % opn)
     if opn == "Add":
@@ -213,11 +220,6 @@ def binop(rt, interp, op, a, b, node=None):
         hook = rt.hooks.get("bytes*int")
         if hook is not None:
             return hook(interp, a, b)
-    hook = rt.binop_hooks.get(opn)
-    if hook is not None:
-        res = hook(rt, interp, a, b)
-        if res is not MISSING:
-            return res
     raise Undecided("operator %s on %r and %r" % (opn, a, b))
 
 
@@ -228,11 +230,6 @@ def _concrete_binop(rt, interp, opn, a, b, node):
             m = rt.lookup_method(a.cls, dunder)
             if m is not None:
                 return interp.call(rt.bind(m, a), [b], {})
-        hook = rt.binop_hooks.get(opn)
-        if hook is not None:
-            res = hook(rt, interp, a, b)
-            if res is not MISSING:
-                return res
         interp.raise_py("TypeError", "unsupported operand types for %s" % opn)
     if opn == "Mod" and isinstance(a, str):
         args = b if isinstance(b, tuple) else (b,)
@@ -1178,7 +1175,7 @@ def install_numeric_models(rt, interp):
                     return real_binop(rt_, i, opn, a, b)
                 return MISSING
             return hook
-        rt.binop_hooks[opn] = mk(opn)
+        rt.binop_hooks.setdefault(opn, []).append(mk(opn))
 
     def td_attr(i, obj, name):
         if name == "total_seconds":
